@@ -46,7 +46,8 @@ class Ctx:
 
     def violation(self, key, what, replay):
         """The property fails on a concrete input (implementation vs spec)."""
-        if len(self.violations) < 50:
+        # keep a few per key (an open known finding must not crowd out a new violation)
+        if sum(1 for v in self.violations if v['key'] == key) < 8 and len(self.violations) < 400:
             self.violations.append({'key': key, 'what': what, 'replay': replay})
 
     def disagree(self, stream, what, replay):
